@@ -457,6 +457,100 @@ def h_mock(params, model=None):
     return fn
 
 
+def h_file(params, model=None):
+    """on-disk backend: solver-chosen call sequence with one injected sqlite3.OperationalError (exercising the reconnect path),
+    then close and reopen the file in a fresh connection: every acknowledged write is visible, nothing else is"""
+    K = params["K"]
+
+    def fn():
+        quiet_repo()
+        import os
+        import sqlite3
+        import tempfile
+        from cloudsync.sync.sqlite_storage import SqliteStorage
+        if model is None:
+            from symx.core import sym_int
+            choose = lambda name, n: int(sym_int(name, 0, n - 1))
+        else:
+            it = iter(model)
+
+            def choose(name, n):
+                nm, k, v = next(it)
+                assert nm.split("#")[0] == name
+                return int(v)
+        d = tempfile.mkdtemp(prefix="verif-c09-")
+        path = os.path.join(d, "s.db")
+        st = SqliteStorage(path)
+        calls = []
+        spec = {}
+        try:
+            fault_at = choose("fault_at", K + 1)        # which storage call hits an OperationalError first (K = none)
+            reopen_at = choose("reopen_at", K + 1)      # close+reopen before this call (K = only at the end)
+            for k in range(K):
+                if k == reopen_at:
+                    st.close()
+                    st = SqliteStorage(path)
+                    calls.append("reopen")
+                op = ["create", "update", "delete"][choose("op", 3)]
+                tag = TAGS[choose("tag", 2)]
+                ids = sorted(i for (t, i) in spec if t == tag) + [99]
+                eid = ids[choose("id", min(len(ids), 3))] if op != "create" else None
+                blob = b"blob-%d" % k
+                calls.append((op, tag, eid))
+                if k == fault_at:
+                    # the connection object is replaced by one whose first execute raises, as a dropped handle would
+                    real = st.db
+
+                    class Flaky:
+                        def __init__(self):
+                            self.n = 0
+
+                        def execute(self, *a):
+                            self.n += 1
+                            if self.n == 1:
+                                raise sqlite3.OperationalError("injected")
+                            return real.execute(*a)
+
+                        def close(self):
+                            real.close()
+                    st.db = Flaky()
+                try:
+                    if op == "create":
+                        got = st.create(tag, blob)
+                        if (tag, got) in spec or any(i == got for (t, i) in spec):
+                            return {"ok": False, "info": {"why": "create returned an id a live row is using", "op": op, "calls": calls}}
+                        spec[(tag, got)] = blob
+                    elif op == "update":
+                        try:
+                            st.update(tag, blob, eid)
+                            if (tag, eid) not in spec:
+                                return {"ok": False, "info": {"why": "update of a missing (tag, id) row did not raise", "op": op, "calls": calls}}
+                            spec[(tag, eid)] = blob
+                        except ValueError:
+                            if (tag, eid) in spec:
+                                return {"ok": False, "info": {"why": "update raised although the row exists", "op": op, "calls": calls}}
+                    else:
+                        st.delete(tag, eid)
+                        spec.pop((tag, eid), None)
+                except sqlite3.Error as ex:
+                    calls[-1] = calls[-1] + ("raised " + type(ex).__name__,)      # not acknowledged: the model is not updated
+            st.close()
+            st = SqliteStorage(path)
+            got = {(t, i): b for t, dd in st.read_all().items() for i, b in dd.items()}
+            if got != spec:
+                return {"ok": False, "info": {"why": "table after close and reopen differs from the acknowledged writes", "op": "reopen", "calls": calls,
+                                              "missing": sorted(map(str, set(spec.items()) - set(got.items())))[:4], "extra": sorted(map(str, set(got.items()) - set(spec.items())))[:4]}}
+        finally:
+            try:
+                st.close()
+            except Exception:
+                pass
+            import shutil
+            shutil.rmtree(d, ignore_errors=True)
+        return {"ok": True, "key": repr(calls), "nontrivial": True}
+    return fn
+
+
 def _mut_sql(params, model=None):
     """sensitivity twin: UPDATE loses its tag condition"""
     inner = h_sqlite(params, model)
@@ -479,7 +573,7 @@ def _mut_sql(params, model=None):
     return fn
 
 
-HARNESSES = {"sqlite": h_sqlite, "mock": h_mock, "sqlite~update-no-tag": _mut_sql}
+HARNESSES = {"sqlite": h_sqlite, "mock": h_mock, "file": h_file, "sqlite~update-no-tag": _mut_sql}
 
 
 def _classify(why, op):
@@ -498,6 +592,8 @@ def _classify(why, op):
         return "read_all-wrong"
     if why.startswith("read"):
         return "read-wrong"
+    if why.startswith("table after close"):
+        return "not-durable-after-reopen"
     if why.startswith("table"):
         return "post-state-differs"
     return re.sub(r"[0-9]+", "N", why)[:80]
@@ -527,6 +623,7 @@ def jobs(tier):
         {"harness": "sqlite", "params": {"K": 1, "rows": 3}, "label": "sqlite/1-call-from-arbitrary-3-row-table", "smt_dump": 4},
         {"harness": "sqlite", "params": {"K": 2, "rows": 2 if q else 3}, "label": "sqlite/2-calls/%d-rows" % (2 if q else 3)},
         {"harness": "mock", "params": {"K": 3 if q else 4, "reopen": True}, "label": "mockstorage/%d-calls+reopen" % (3 if q else 4)},
+        {"harness": "file", "params": {"K": 3 if q else 4}, "label": "sqlite-file/%d-calls+fault+reopen" % (3 if q else 4)},
         {"harness": "sqlite~update-no-tag", "params": {"K": 1, "rows": 2}, "label": "sqlite~update-no-tag", "role": "sens"},
     ]
 
@@ -540,7 +637,7 @@ def meta(tier):
                        "the real SQLite (in-memory) and compared (translation validation). MockStorage: real class, solver-chosen 3-4 call sequences incl. re-open.",
         "bounds": {"table": "<= 3 rows, ids 1..5 (new ids 1..7), 2 tags", "calls": "1 from arbitrary state; 2-call sequences (thorough: 3 rows)", "mockstorage": "3 (4) calls, ids 0..2, 2 tags, reopen"},
         "symbolic": ["row presence, ids, tags, blobs of the pre-state", "operation, tag, id, blob of each call"],
-        "outside": ["durability across close/reopen of the on-disk file and WAL behaviour (C library, file I/O)", "concurrent callers (threads)", "blob values themselves (opaque tokens: only equality matters)"],
+        "outside": ["crash durability (power loss) and WAL internals of the on-disk file (C library, file I/O); close/reopen visibility IS checked, concretely, by the sqlite-file harness", "concurrent callers (threads)", "blob values themselves (opaque tokens: only equality matters)"],
         "stubs": ["sqlite3 connection replaced by the symbolic relation + SQL interpreter (INSERT, UPDATE..SET, DELETE, SELECT cols, WHERE with = != <> AND OR, CREATE, PRAGMA); "
                   "validated per path against real SQLite"],
         "assumptions": ["SQLite assigns an unused rowid on INSERT", "z3 is sound"],
